@@ -498,7 +498,7 @@ class MultiCrossBlockRepeat(Block):
             preamble = 0
         lists = cast(List[T], [])
         while start < num_trials - preamble:
-            lists.append(proc(start, end))
+            lists.append(proc(start, min(end, num_trials)))
             start += step
             end += step
         return lists
